@@ -491,11 +491,14 @@ class C12(Prop):
                 "bytes 2-3 / 0-1 change) and getter-after-setter; setters never panic on a packet with a header.")
     assumptions = ["bytes < 256", "rcode/opcode arguments are u8, tid u16, flags u32 (the Rust types)"]
 
-    def one(self, rng, w, rounds, opt=None, table=False):
+    def one(self, rng, w, rounds, opt=None, table=False, size=None):
         tid = rng.randint(0, 0xFFFF)
-        pkt = struct.pack(">HHHHHH", tid, w, 1, 0, 0, 1 if opt else 0) + G.wire_name([b"example", b"com"]) + struct.pack(">HH", 1, 1)
+        pkt = struct.pack(">HHHHHH", tid, w, 1, 0, 0, (1 if opt else 0) + (1 if size else 0)) + G.wire_name([b"example", b"com"]) + struct.pack(">HH", 1, 1)
         if opt:  # (payload, extended flags): an OPT record, whose values the setters must leave alone
             pkt += b"\0" + struct.pack(">HHBBHH", 41, opt[0], 0, 0, opt[1], 0)
+        if size:  # padded to an exact wire size with one additional record of a private type (sizes around 512, the advertised payload, 64 KiB)
+            fill = max(0, size - len(pkt) - 11)
+            pkt += b"\0" + struct.pack(">HHIH", 65280, 1, 0, fill) + bytes(rng.randrange(256) for _ in range(fill))
         ops = ["P," + hx(pkt), "g"]
         args = []
         for _ in range(rounds):
@@ -509,8 +512,8 @@ class C12(Prop):
                 # table=True: the three setters the C function table has are called through it
                 ops += ["%s%s,%d" % ("F," if table and name in ("sf", "sr", "so") else "", name, a), "g", "b"]
                 args.append((name, a))
-        return Case("w%d%s%s" % (w, "e%d_%d_%d" % (opt[0], opt[1], tid) if opt else "", "t" if table else ""), "\t".join(ops),
-                    {"family": "flags-table" if table else "flags-edns" if opt else "flags", "w": w, "tid": tid, "pkt": pkt.hex(), "args": args, "opt": opt})
+        return Case("w%d%s%s%s" % (w, "e%d_%d_%d" % (opt[0], opt[1], tid) if opt else "", "t" if table else "", "s%d_%d" % (size, tid) if size else ""), "\t".join(ops),
+                    {"family": "flags-sized" if size else "flags-table" if table else "flags-edns" if opt else "flags", "w": w, "tid": tid, "pkt": pkt.hex(), "args": args, "opt": opt})
 
     def empty_cases(self, rng, n, rounds):
         """The same setters on a synthesised empty packet (12 bytes: nothing but the header), before any record is inserted."""
@@ -541,14 +544,25 @@ class C12(Prop):
             out.append(self.one(rng, w, rounds, opt=(rng.choice([0, 512, 1232, 4096, 65535]), ef)))
         return out
 
+    def sized_cases(self, rng, tier):
+        """Queries and responses of exact sizes around 512 bytes, around the payload size an OPT record advertises, and beyond: what a
+        setter does must not depend on how large the packet is."""
+        out = []
+        sizes = (511, 512, 513, 514, 600, 1232, 1233, 3040, 4097, 8193) if tier == "quick" else (100, 511, 512, 513, 514, 600, 1231, 1232, 1233, 1500, 3040, 4096, 4097, 8192, 8193, 16385, 65535, 65536)
+        for sz in sizes:
+            for w in (0x0000, 0x0100, 0x0120, 0x8180, rng.getrandbits(16) & 0x7FFF):
+                for opt in (None, (512, 0), (1232, 0x8000), (4096, 0)):
+                    out.append(self.one(rng, w, 1 if tier == "quick" else 3, opt=opt, size=sz, table=(sz % 2 == 0 and opt is None)))
+        return out
+
     def gen(self, rng, tier):
         rounds = 1 if tier == "quick" else 24
         words = range(65536) if tier == "quick" else range(0, 65536, 1)
         if tier == "thorough":
             return ([self.one(rng, w, 2 if w % 16 else rounds) for w in words] + self.edns_cases(rng, 6000, 6) + self.empty_cases(rng, 2000, 6)
-                    + [self.one(rng, w, 4, table=True) for w in range(0, 65536, 4)])
+                    + [self.one(rng, w, 4, table=True) for w in range(0, 65536, 4)] + self.sized_cases(rng, tier))
         return ([self.one(rng, w, rounds) for w in words] + self.edns_cases(rng, 600, 3) + self.empty_cases(rng, 200, 3)
-                + [self.one(rng, w, 2, table=True) for w in range(0, 65536, 64)])
+                + [self.one(rng, w, 2, table=True) for w in range(0, 65536, 64)] + self.sized_cases(rng, tier))
 
     def search(self, rng):
         return [self.one(rng, w, 6) for w in range(65536)] + self.edns_cases(rng, 3000, 6) + self.empty_cases(rng, 1000, 6)
@@ -833,6 +847,26 @@ def special_valid(rng):
     # a label starting at an offset whose low byte is 0xff / 0x00 / 0x01, named by a pointer from every kind of name
     for T in (255, 256, 257, 512, 768, 4096, 8191, 8192, 8193, 12000, 16382, 16383):
         out += G.label_at_packets(T)
+    # record types the library gives no meaning to, with data that looks like a name, like "2 bytes + a name", like a name followed
+    # by junk, or like nothing at all: opaque means copied byte for byte by every operation (MD / MF / MB / MG / MR / AFSDB / RT /
+    # X25 / ISDN / PX / KX / DNAME / SRV / NAPTR / ..., in each section, after a compressed owner name)
+    odd_types = (3, 4, 7, 8, 9, 10, 13, 14, 17, 18, 19, 20, 21, 24, 26, 33, 35, 36, 39, 46, 47, 99, 250, 251, 252, 253, 254, 255, 256, 257, 32768, 65535)
+    datas = (b"\3xyz", b"\0\1\0\xde\xad\xbe", b"\xc0\x0c", b"\0\5\xc0\x0c", b"\3www\xc0\x0c\xff\xff", b"\0\1\3abc\0", b"", b"\xc0", bytes(range(40)))
+    for i, t in enumerate(odd_types):
+        for j in range(3):
+            rd = datas[(i + 3 * j) % len(datas)]
+            cnt = [0, 0, 0]
+            cnt[(i + j) % 3] = 3
+            out.append(struct.pack(">HHHHHH", 8, 0x8180, 1, *cnt) + Qw + rrb(b"\xc0\x0c", 1, b"\1\2\3\4") + rrb(wp, t, rd) + rrb(b"\xc0\x0c", 1, b"\5\6\7\x08"))
+    # names with bytes above 127: UTF-8 letters that have a lower-case form (only A-Z fold in DNS), lone high bytes, 0xff
+    for lab in ("CAF\u00c9", "\u00dcBER", "\u03a3\u038a\u03a3", "\u0130STANBUL", "\u212a", "\u01c5", "\u00c0\u00c1", "stra\u1e9ee", "A\u0301"):
+        lb = lab.encode("utf-8")
+        for layout in ("none", "greedy"):
+            b, _ = G.encode(rng, G.Msg(7, 0x8180, [lb, b"Example"], 1, 1, an=[A([lb, b"Example"]), G.RR([b"WWW", lb], 5, 1, 9, ("name", [lb, b"Example"]))]), layout)
+            out.append(b)
+    for lb in (b"\xc9", b"A\xff\xc3", b"\x80\x81", b"\xc3\x89\xc3"):
+        b, _ = G.encode(rng, G.Msg(7, 0x8180, [lb, b"Org"], 1, 1, an=[A([lb, b"Org"])]), "greedy")
+        out.append(b)
     # beyond 64 KiB: a record after offset 65535, a record with a data length of 65530
     out.append(G.jumbo_packet(65536))
     out.append(G.jumbo_packet(None, big_rdlen=65530))
@@ -937,8 +971,9 @@ class C04(Prop):
                 "C04_question_decoding_unique); the EDNS summary the parser stores is the start of the OPT data, the number of options tiling "
                 "it, payload size, extended rcode, version and flags read from the OPT record, or nothing and 512 without OPT "
                 "(C04_edns_summary), and that record is the one OPT record of the declarative reading: payload = its class, extended "
-                "rcode/version/flags = its TTL bytes, count = options tiling its data (C04_summary_of_opt_record). PARTIAL: id / opcode / rcode are single reads of header bytes in the model; equality with the "
-                "implementation rests on the correspondence and the reference-decoder oracle.")
+                "rcode/version/flags = its TTL bytes, count = options tiling its data (C04_summary_of_opt_record). id = the first 16-bit word, rcode = the low four bits of the flag word, opcode = its bits 11..14, for every buffer that has "
+                "these bytes (C04_id_opcode_rcode). The statement is covered by theorems; equality of model and implementation rests on "
+                "the correspondence and the reference-decoder oracle.")
     assumptions = ["bytes < 256"]
 
     def one(self, rng, i, b, fam):
@@ -1332,8 +1367,10 @@ class C14(Prop):
                 "fits is accepted and so encoded (C14_accepts_open, C14_accepts_closed); an empty interior label, a leading dot, 63 bytes "
                 "without a dot and texts over 253 bytes are errors (C14_rejects_empty_label, _leading_dot, _long_label, "
                 "_long_label_after_dot, _long_text); for letter-digit-hyphen-underscore labels the produced wire name is a name of the "
-                "parser's policy with those labels and prints back as the labels joined by dots (C14_ldh_roundtrip). PARTIAL: the read-back "
-                "through a record of a packet (set_raw_name then name()) is decided by the correspondence.")
+                "parser's policy with those labels and prints back as the labels joined by dots (C14_ldh_roundtrip). Read-back through a record: on an object in pointer-free form a successful set_raw_name with the "
+                "wire name of non-empty labels leaves the cursor on a record whose raw name is that wire name and whose name() is the "
+                "labels joined by dots, lower-cased (C14_set_name_reads_back, C14_text_reads_back with the text conversion in front); the "
+                "read-back through RR::new + insert_rr, which takes the bytes the setter refuses, is decided by the correspondence.")
     assumptions = ["bytes < 256", "the default zone passed in is itself a well-formed wire name (documented precondition)"]
 
     ZONE = [b"example", b"org"]
@@ -1376,6 +1413,14 @@ class C14(Prop):
                     continue
                 cases.append(Case("z%d%s" % (i, "z" if z else ""), "Z,%s,%s" % (hx(nm), hx(z) if z else "-"),
                                   {"family": "from_str", "name": nm.hex(), "zone": bool(z)}))
+        # default zones up to the longest wire name there is (255 bytes): the total is what counts, wherever the zone starts
+        zk = 0
+        for zl_len in (100, 200, 240, 245, 248, 249, 250, 251, 252, 253, 254, 255):
+            zlabels = G.name_of_wire_len(zl_len)
+            for nm in (b"www", b"a", b"ab", b"abc", b"a.b", b"x" * 62, b"www."):
+                cases.append(Case("zl%d" % zk, "Z,%s,%s" % (hx(nm), hx(G.wire_name(zlabels))),
+                                  {"family": "from_str", "name": nm.hex(), "zone": True, "zone_labels": [l.hex() for l in zlabels]}))
+                zk += 1
         # the same conversion appending to a buffer that already holds bytes (as the MX and SOA builders use it): the limits are
         # those of the name, wherever in the buffer it starts
         allnames = self.names(random.Random(rng.random()), "quick")
@@ -1422,6 +1467,8 @@ class C14(Prop):
         if case.meta["family"] == "from_str":
             o = io[0]
             zl = self.ZONE if case.meta["zone"] else None
+            if case.meta.get("zone_labels"):
+                zl = [bytes.fromhex(l) for l in case.meta["zone_labels"]]
             pre = bytes.fromhex(case.meta.get("prefix", ""))
             if o.startswith("OK:"):
                 wire = bytes.fromhex(o[3:]) if o[3:] != "-" else b""
@@ -2141,7 +2188,9 @@ class C09(HistProp):
                 "end of the section, one count incremented), C09_set_ttl_frame (only 4 bytes change), C09_set_ttl_effect (on a section that reads "
                 "declaratively as records l, after set_rr_ttl t on the k-th cursor the section walk returns the views of l with the k-th TTL "
                 "replaced by t and nothing else changed, PROVIDED no owner name of the section is read through the 4 bytes written; "
-                "C09_set_ttl_without_it_refuted shows the proviso is necessary - known finding data-pointer). The refinement of the other "
+                "C09_set_ttl_without_it_refuted shows the proviso is necessary - known finding data-pointer). Insertion from any state satisfying the C08 invariant appends the record to the reading "
+                "(C09_insert_on_decompressed); a successful whole-packet rename on a packet as the parser returned it leaves an object whose "
+                "packet reads as the renamed message up to case, counts kept, cursor untouched (C09_rename_effect). The refinement of the other "
                 "operations to the abstract message operations is decided each run by the correspondence and the abstract-effect oracle.")
 
     def gen(self, rng, tier):
@@ -2181,7 +2230,8 @@ class C10(HistProp):
                 "a non-OPT record of a record section: set_raw_name and set_rr_ip either succeed or report an error with object and cursor "
                 "exactly as they were (C10_failed_set_name_changes_nothing, C10_failed_set_ip_changes_nothing), delete and set_rr_ttl cannot "
                 "fail (C10_delete_succeeds, C10_set_ttl_succeeds), none has a Panic outcome; histories that include them run to the end "
-                "(C08_histories_with_cursor_total). Atomicity of the other failing operations (the question, text, whole-packet rename, "
+                "(C08_histories_with_cursor_total). A failing whole-packet rename or recompute leaves object and cursor exactly as they were, any object, any arguments "
+                "(C10_failed_rename_changes_nothing, C10_failed_recompute_changes_nothing). Atomicity of the other failing operations (the question, text, "
                 "operations that start on a compressed object) is decided each run by the correspondence and the before/after oracle.")
 
     def gen(self, rng, tier):
@@ -2238,6 +2288,19 @@ class C10(HistProp):
                 ops = [first, "v", "fp", "ca", "b", "sp,1", "v", "fp", "ca", "b", "IR,%s,%s,16,%d" % (sec, hx(b"big.example.com"), rdlen), "v", "fp", "ca", "b"]
                 st = [H.Step("sp,1", "header", None, None, None, {}), H.Step(ops[10], "insert-too-large" if rdlen > 8000 else "insert", None, None, "any" if rdlen > 8100 else None, {})]
                 cases.append(Case("h%d" % k, "\t".join(ops), {"family": "raw-record-size", "steps": st, "a0": None}))
+                k += 1
+        # an owner-name change through a cursor refused because the packet would pass 65535 bytes - after the cursor has already
+        # decompressed the packet: the same cursor is then read again, used for a deletion, and the walk goes on
+        qw = G.wire_name([b"example", b"com"]) + struct.pack(">HH", 1, 1)
+        for usize in ((65479, 65300, 65530) if tier == "quick" else (65000, 65300, 65400, 65479, 65500, 65520, 65530, 65535)):
+            for nlen, tail in ((201, "t.l.c"), (255, "t.l.X"), (120, "l.t.c.M%s.t" % hx(G.wire_name([b"ok"])))):
+                n_txt = usize - 79
+                pkt = struct.pack(">HHHHHH", 11, 0x8180, 1, 2, 0, 0) + qw + b"\xc0\x0c" + struct.pack(">HHIH", 16, 1, 7, n_txt) + bytes([0x61]) * n_txt + \
+                    b"\xc0\x0c" + struct.pack(">HHIH", 1, 1, 9, 4) + b"\xc0\x00\x02\x07"
+                big = G.wire_name(G.name_of_wire_len(nlen))
+                ops = ["P," + hx(pkt), "v", "fp", "ca", "b", "W,an,0,M%s.%s/*n.t.l" % (hx(big), tail), "v", "fp", "ca", "b", "W,an,1,*n.t.l", "v", "fp", "ca", "b"]
+                st = [H.Step(ops[5], "walk-raw", None, None, None, {}), H.Step(ops[10], "walk-raw", None, None, None, {})]
+                cases.append(Case("h%d" % k, "\t".join(ops), {"family": "refused-growth", "steps": st, "a0": None}))
                 k += 1
         for usz in ([8000, 8100, 8150, 8180, 8192, 8300] if tier == "quick" else [7900, 8000, 8100, 8150, 8170, 8180, 8185, 8190, 8192, 8200, 8300, 9000]):
             for rep in range(3 if tier == "quick" else 8):
@@ -2298,9 +2361,14 @@ class C11(HistProp):
                 q = [b"zone", b"example"]
                 recs = []
                 for j in range(n):
-                    t = rng.choice([1, 1, 28, 2, 15, 16])
+                    t = rng.choice([1, 1, 28, 2, 15, 16, 0])
                     name = [b"r%d" % j] + q
-                    if t == 1:
+                    if t == 0:
+                        # a type the library gives no meaning to, with data that looks like a name or like "2 bytes + a name": it must
+                        # survive the decompression a deletion triggers byte for byte
+                        t = rng.choice([3, 4, 7, 8, 9, 14, 17, 18, 21, 24, 26, 33, 36, 99, 250, 255, 256, 65535])
+                        rd = ("raw", rng.choice([b"\x03xyz", b"\x00\x01\x00\xde\xad\xbe", b"\xc0\x0c", b"\x00\x05\xc0\x0c", b"\x03www\xc0\x0c\xff", b"", b"\xc0"]))
+                    elif t == 1:
                         rd = ("raw", bytes([10, 0, 0, j]))
                     elif t == 28:
                         rd = ("raw", bytes(15) + bytes([j]))
@@ -2510,6 +2578,7 @@ def max_hops(m):
 
 
 class C06(Prop):
+    generated = ["Constants", "DictCompare"]
     id = "C06"
     rule = ("CU: Compress::compress then Compress::uncompress of the result, on accepted pointer-free packets: random messages; nested "
             "suffixes of depth 2..30; 31..70 distinct suffixes (table wrap, pinned first entry); suffixes of 120..200 bytes; mixed-case "
@@ -2590,6 +2659,7 @@ class C06(Prop):
 
 
 class C07(Prop):
+    generated = ["Constants", "DictCompare"]
     id = "C07"
     rule = ("R: Renamer::rename_with_raw_names on accepted packets (all pointer layouts, OPT anywhere, every name-bearing type) x (target, "
             "source, exact|suffix) with well-formed non-root names: sources taken from the packet's own names at every label depth, case "
@@ -2606,8 +2676,9 @@ class C07(Prop):
                 "written in full, and record by record - answers, authority, additional with OPT - the owner name renamed, the same type / "
                 "class / TTL bytes, a data length equal to the length of what follows, the same data with the names inside NS / CNAME / PTR / "
                 "MX / SOA data renamed and every other byte copied; names of the output read by the reference decoder of C06 and compared "
-                "up to case; no Panic outcome. PARTIAL: the exact condition of the error at packet level (some renamed name exceeds 255 "
-                "bytes) is stated per name only; acceptance of the output has the known finding chain-depth (shared with C06). Tie to the "
+                "up to case; no Panic outcome; the error is reported exactly when the question name, an owner name or a name inside data would exceed 255 "
+                "bytes once renamed; whenever the parser accepts the output it reads as the renamed message up to case, section by section, "
+                "same counts (C07_same_message). PARTIAL: acceptance of the output has the known finding chain-depth (shared with C06). Tie to the "
                 "code: correspondence plus the abstract rename applied to the independently decoded message, on every generated packet.")
     assumptions = ["bytes < 256", "source and target are well-formed pointer-free non-root names (property precondition)"]
 
@@ -2993,7 +3064,7 @@ class C16(Prop):
                     k += 1
         # thread 0 fails and stays alive, n short-lived threads then fail one after the other, thread 0 reads: a table of slots handed out
         # by a wrapping counter of any size up to n is detected (powers of two and their neighbours)
-        for n in ((300, 4097) if tier == "quick" else (300, 4097, 65535, 65536, 65537, 131073)):
+        for n in ((300, 4097, 65537) if tier == "quick" else (300, 4097, 65535, 65536, 65537, 131073)):
             cases.append(Case("h%d" % k, "HS,%d" % n, {"family": "sequential-threads"}))
             k += 1
         return cases
@@ -3204,6 +3275,35 @@ class C17(Prop):
                                   "R,%s,%s,%s,1" % (hx(rng.choice(comp + plain)), hx(G.wire_name([b"new", b"name"])), hx(G.wire_name([rng.choice([b"com", b"org", b"example"])])))])
         for i in range(n):
             add("mixed", ops(), ops())
+        # x = parse + recompute() called directly on a compressed packet B, after y = a decompression (called directly) whose RESULT has
+        # exactly the length of B (a buffer handed back by the allocator, a length remembered from the previous call): every B of
+        # the pool against decompressions of that length, and against itself
+        bylen = {}
+        for b in comp + [b for (b, m) in special_valid(random.Random(5))]:
+            m = decode_or_none(b)
+            if m is not None:
+                bylen.setdefault(len(G.encode_plain(m)[0]), []).append(b)
+        kk = 0
+        for b in comp:
+            if decode_or_none(b) is None or G.encode_plain(decode_or_none(b))[0] == b:
+                continue
+            for a in bylen.get(len(b), [])[:3]:
+                add("recompute-after-uncompress", "PR," + hx(b), "U,%s,12" % hx(a))
+                kk += 1
+            if kk > (200 if tier == "quick" else 20000):
+                break
+        # a hand-made pair: A decompresses to exactly len(B) bytes
+        A_ = lambda nm, k=1: G.RR(nm, 1, 1, 60, ("raw", bytes([10, 0, 0, k])))
+        for pad in range(0, 12):
+            bq = [b"q" * (1 + pad), b"example", b"com"]
+            bb, _ = G.encode(rng, G.Msg(9, 0x8180, bq, 1, 1, an=[A_(bq)]), "greedy")
+            target = len(bb)
+            for extra in range(0, 40):
+                aq = [b"z" * (1 + extra)]
+                ab, _ = G.encode(rng, G.Msg(7, 0x8180, aq, 1, 1, an=[A_(aq)]), "greedy")
+                if decode_or_none(ab) is not None and len(G.encode_plain(decode_or_none(ab))[0]) == target:
+                    add("recompute-after-uncompress", "PR," + hx(bb), "U,%s,12" % hx(ab))
+                    break
         # the public name emitter with a caller-owned dictionary (Compress::copy_compressed_name + SuffixDict): a sequence of names
         # through one dictionary, alone and with a second dictionary used on the same thread between the calls - for other names and
         # for the same names (what a dictionary remembers must be its own)
